@@ -7,6 +7,31 @@ HERE = os.path.dirname(os.path.dirname(os.path.abspath(__file__)))
 
 # id -> (technique, level text, level note, design ref)
 CHECKS = {
+    "C04": ("stateful property-based testing (Hypothesis-generated operation histories) against an executable "
+            "reference model of the graph store",
+            "Generated histories of store operations (imports in both text formats through all four entry points, "
+            "mutations, deletes, clones) over 4 graph ids on both store flavours; after EVERY step the canonical "
+            "content of every graph is compared with a reference model (frame + target), node identities and the "
+            "lock state are checked. Exploration within the stated alphabet and history length.",
+            "Trusts the reference model (DESIGN.md Appendix A) and networkx's own GraphML/JSON writers used by the "
+            "harness to produce import text.",
+            "DESIGN.md §3 C04"),
+    "C05": ("model-based testing: exhaustive enumeration of short operation sequences plus Hypothesis-generated long "
+            "ones, three-way differential (shared backend, per-graph backend, reference model)",
+            "Every sequence of <=2 (quick) / <=3 (thorough) operations over a 50-operation reduced alphabet from two "
+            "base states is executed in lock-step on both backends and the reference model, plus thousands of random "
+            "sequences of up to 40 operations; results, raised/not-raised and full graph content are compared after "
+            "every step. Exhaustive only over the stated alphabet and depth.",
+            "Trusts the reference model (my reading of the interface docstrings, DESIGN.md Appendix A).",
+            "DESIGN.md §3 C05"),
+    "C06": ("exhaustive enumeration of small typed graphs plus Hypothesis-generated larger ones against a "
+            "brute-force oracle (set comprehension / BFS / all simple paths) computed from the edge list",
+            "All graphs with <=3 (quick; plus 1/8 of n=4) / <=4 (thorough) nodes over 2 classes x 2 relations and "
+            "thousands of random graphs of 4-8 nodes; on each graph every neighbour, two-hop, shortest-path query and "
+            "(all or generated) path-with-hops queries and the derived helpers are compared with the oracle. "
+            "Exhaustive only up to the node bound.",
+            "Trusts the harness' own BFS / simple-path enumeration (no networkx in the oracle).",
+            "DESIGN.md §3 C06"),
     "C15": ("property-based testing (Hypothesis) against an integer-arithmetic oracle on field dictionaries",
             "Generated-input search: tens of thousands (quick) to millions (thorough) of capacity triples over all 8 "
             "fields, every algebraic law of the statement checked against plain integer arithmetic. Exploration, "
